@@ -145,6 +145,10 @@ def curated_inputs(tag):
         cases.append({k: "plain"})
         cases.append({k: "{{ x }} <b>y</b>"})
         cases.append({k: {"sub": "x"}})
+    for base in ("fn", "", "type", "self", "r#fn", "a-b", "é", "x_ordinal", "_ordinal", "count", "x_one"):
+        cases.append({base + "_one": "a {{ count }}", base + "_other": "b"})
+        cases.append({base + "_ordinal_one": "a", base + "_ordinal_other": "b {{ count }}"})
+        cases.append({"s": {base + "_one": "$t(s.%s)" % (base or "x"), base + "_other": "b"}})
     for n in (10, 100, 1000, 3000, 10000):
         cases.append({"deep": adversarial.deep_comp(n)})
         cases.append({"deep": "{{ x }}" * n})
